@@ -80,6 +80,9 @@ class RecipeRun:
         self.noise_rel = F(0)   # bake applies fill_to twice: relative noise this can induce downstream (conditioning of later ratios)
         self.peak = {}          # substance -> largest amount seen in any vessel of the eager reference
         self.abs_noise = {}     # substance -> absolute allowance from ill-conditioned steps downstream of a doubled fill_to
+        self.shadow = None      # a second Recipe object given the same calls, interleaved (see shadow_call)
+        if (profile or {}).get('shadow'):
+            self.shadow = {'R': rep.Recipe(), 'handles': {}, 'baked': None}
         self.panel_before = None
 
     # ------------------------------------------------------------------ plumbing
@@ -213,6 +216,74 @@ class RecipeRun:
         except Exception as e:  # noqa
             return (type(e).__name__, e)
 
+    # ------------------------------------------------------------------ two recipes side by side
+    def shadow_call(self, c, main_kind, objs=None):
+        """The same call on a second, independent Recipe object, interleaved with the first.  Two recipes given the same
+        calls with the same objects must decide alike and bake to identical results: whatever differs was carried from
+        one Recipe object to the other (class-level state, tables keyed by names).  No tolerance is involved."""
+        sh = self.shadow
+        if sh is None:
+            return
+        k = c['c']
+        R2 = sh['R']
+        save = (self.recipe, self.handles, self.held, self.held_info)
+        self.recipe, self.handles, self.held, self.held_info = R2, dict(self.handles, **sh['handles']), [], []
+        try:
+            if k == 'uses':
+                fn = (lambda: R2.uses(objs)) if c.get('aslist') else (lambda: R2.uses(*objs))
+            elif k in STEP_CALLS:
+                fn = self.build_recipe_call(c)
+            elif k == 'start_stage':
+                fn = lambda: R2.start_stage(c['name'])  # noqa: E731
+            elif k == 'end_stage':
+                fn = lambda: R2.end_stage(c['name'])  # noqa: E731
+            elif k == 'bake':
+                fn = lambda: R2.bake()  # noqa: E731
+            else:
+                return
+        finally:
+            self.recipe, self.handles, self.held, self.held_info = save
+        if fn is None:
+            return
+        out = self.call(fn)
+        self.stats['probe:shadow_recipe_calls'] += 1
+        if out[0] != main_kind:
+            self.V('C08', 'recipes_interfere', (k, 'outcome'),
+                   f"{k}: the first of two recipes given the same calls -> {main_kind}, the second -> {out[0]}"
+                   + (f": {out[1]}" if out[0] != 'ok' else ''), self.first_excuse(('C08',)))
+            self.shadow = None          # no point in going on once they have diverged
+            return
+        if out[0] != 'ok':
+            return
+        if k in ('create_container', 'create_solution', 'create_solution_from'):
+            sh['handles'][c['name']] = out[1]
+        if k == 'bake' and isinstance(out[1], dict) and self.baked is not None:
+            sh['baked'] = out[1]
+            rep = self.rep
+            for n, o in self.baked.items():
+                o2 = out[1].get(n)
+                if o2 is None or fingerprint(rep, o) != fingerprint(rep, o2):
+                    self.V('C08', 'recipes_interfere', ('bake', 'result'),
+                           f"{n}: two recipes given the same calls baked different results: "
+                           f"{fp_diff(fingerprint(rep, o), fingerprint(rep, o2)) if o2 is not None else 'missing in the second'}",
+                           self.first_excuse(('C08',)))
+                    break
+            else:
+                self.stats['probe:shadow_recipe_identical'] += 1
+                from . import tracking
+                p1 = tracking.fixed_panel(self)
+                self.recipe, b1 = R2, self.baked
+                self.baked = out[1]
+                try:
+                    p2 = tracking.fixed_panel(self)
+                finally:
+                    self.recipe, self.baked = save[0], b1
+                if p1 != p2:
+                    d = next((x, y) for x, y in zip(p1, p2) if x != y)
+                    for prop in ('C09', 'C15'):
+                        self.V(prop, 'recipes_interfere', ('tracking',),
+                               f"two recipes given the same calls answer differently: {d[0]} vs {d[1]}", self.first_excuse((prop,)))
+
     # ------------------------------------------------------------------ names a call uses / declares
     def call_names(self, c):
         """-> (operand names that must be declared, name declared by the call or None, names the step uses)"""
@@ -298,6 +369,8 @@ class RecipeRun:
         kind = out[0]
         rec['out'] = kind
         rec['pred'] = pred
+        if self.shadow is not None and not lc.locked:
+            self.shadow_call(c, kind, objs if k == 'uses' else None)
         self.sig.add(('call', k, pred, kind if kind in ('ok', 'ValueError', 'RuntimeError') else 'other', lc.locked, lc.open_stage is not None))
         # a call that is not well-formed for reasons outside the life cycle (bad concentration ...) may be rejected
         soft = c.get('may_be_invalid', False)
@@ -749,6 +822,7 @@ class RecipeRun:
         out = self.call(lambda: R.bake())
         kind = out[0]
         rec['out'], rec['pred'] = kind, pred
+        shadow_due = self.shadow is not None and not lc.locked
         self.sig.add(('bake', pred, kind if kind in ('ok', 'ValueError', 'RuntimeError') else 'other', second, len(self.steps)))
         key = ('bake',)
         kid = known['id'] if known else None
@@ -802,6 +876,8 @@ class RecipeRun:
             self.stats['probe:bake_refused'] += 1
             if self.recipe.locked:
                 self.V('C16', 'locked_after_failed_bake', key, "recipe is locked although bake raised")
+        if shadow_due and self.shadow is not None:
+            self.shadow_call({'c': 'bake'}, kind)
         self.check_handles('bake')
         self.check_held_reuse()
         if self.baked is not None and lc.locked and kind != 'ok':
